@@ -6,9 +6,13 @@
 package main
 
 import (
+	"bufio"
+	"encoding/json"
 	"fmt"
 	"io"
 	"net"
+	"os"
+	"os/exec"
 	"strconv"
 	"strings"
 	"time"
@@ -59,16 +63,62 @@ func startServer() {
 	go func() { _ = app.Listener(ln, fiber.ListenConfig{DisableStartupMessage: true}) }()
 }
 
-type distCounter struct{ w *gen.Writer }
-
-func (d distCounter) add(key string, n int) {
-	for i := 0; i < n; i++ {
-		d.w.Count(key)
-	}
+// out is where cases go: the worker's line file (flushed per case, so that a crash of the process loses
+// nothing but the case in flight).
+type out struct {
+	f    *os.File
+	w    *bufio.Writer
+	pend string // file holding the inputs of the case in flight
+	dist map[string]int
+	idx  int // index of the case in flight (generated: case number, replay: line number)
 }
 
-func emitAsm(w *gen.Writer, id string, a *asmCase) {
-	obs := runAsm(a)
+func newOut(path string) *out {
+	f, err := os.Create(path)
+	if err != nil {
+		fmt.Fprintln(os.Stderr, "harness:", err)
+		os.Exit(2)
+	}
+	return &out{f: f, w: bufio.NewWriter(f), pend: path + ".pending", dist: map[string]int{}}
+}
+
+// Pending records the inputs of the case about to run.
+func (o *out) Pending(id string, fields ...string) {
+	_ = os.WriteFile(o.pend, []byte(strconv.Itoa(o.idx)+"\t"+id+"\t"+strings.Join(fields, "\t")+"\n"), 0o644)
+}
+
+func (o *out) Case(id string, fields ...string) {
+	o.w.WriteString("case\t" + id + "\t" + strings.Join(fields, "\t") + "\n")
+	o.w.Flush()
+}
+
+func (o *out) Count(key string) { o.dist[key]++ }
+
+func (o *out) Close() {
+	b, _ := json.Marshal(o.dist)
+	o.w.WriteString("dist\t" + string(b) + "\n")
+	o.w.Flush()
+	o.f.Close()
+	_ = os.Remove(o.pend)
+}
+
+type distCounter struct{ w *out }
+
+func (d distCounter) add(key string, n int) { d.w.dist[key] += n }
+
+// guard turns a panic inside the code under test into an observation (the case stays replayable).
+func guard(f func() string) (obs string) {
+	defer func() {
+		if r := recover(); r != nil {
+			obs = "panic=" + gen.Hex(fmt.Sprint(r))
+		}
+	}()
+	return f()
+}
+
+func emitAsm(w *out, id string, a *asmCase) {
+	w.Pending(id, a.fields()...)
+	obs := guard(func() string { return runAsm(a) })
 	w.Case(id, append(a.fields(), obs)...)
 	w.Count("asm")
 	if strings.HasPrefix(obs, "timeout") {
@@ -76,29 +126,50 @@ func emitAsm(w *gen.Writer, id string, a *asmCase) {
 	}
 }
 
-func emitJar(w *gen.Writer, id string, ops []jarOp) {
-	obs := runJar(ops)
+func emitJar(w *out, id string, ops []jarOp) {
+	w.Pending(id, "jar", jarOpsString(ops))
+	obs := guard(func() string { return runJar(ops) })
 	w.Case(id, "jar", jarOpsString(ops), obs)
 	w.Count("jar")
+	for _, o := range ops {
+		if o.kind == 'W' {
+			w.Count("jar-timed")
+			break
+		}
+	}
 }
 
-func emitSched(w *gen.Writer, id string, acts []string) {
-	obs := runSched(acts)
+// schedAnomaly: a schedule case ended with something else than T / R<own id>. Schedule cases after an
+// anomaly would spend seconds each in their safety timeouts (stale completions keep circulating through the
+// pools), so the generator stops drawing them: the anomaly is in the output already.
+var schedAnomaly bool
+
+func emitSched(w *out, id string, acts []string) {
 	s := "-"
 	if len(acts) > 0 {
 		s = strings.Join(acts, ";")
 	}
+	w.Pending(id, "sched", s)
+	obs := guard(func() string { return runSched(acts) })
 	w.Case(id, "sched", s, obs)
 	w.Count("sched")
+	if obs != "-" {
+		for i, o := range strings.Split(obs, "|") {
+			if o != "T" && o != fmt.Sprintf("Rq%d", i) {
+				schedAnomaly = true
+			}
+		}
+	}
 }
 
-func emitStress(w *gen.Writer, id string, workers, per, delay, to int) {
-	obs := runStress(workers, per, delay, to, distCounter{w})
+func emitStress(w *out, id string, workers, per, delay, to int) {
+	w.Pending(id, "stress", gen.I(workers), gen.I(per), gen.I(delay), gen.I(to))
+	obs := guard(func() string { return runStress(workers, per, delay, to, distCounter{w}) })
 	w.Case(id, "stress", gen.I(workers), gen.I(per), gen.I(delay), gen.I(to), obs)
 	w.Count("stress")
 }
 
-func replay(w *gen.Writer, f []string) {
+func replay(w *out, f []string) {
 	defer func() {
 		if r := recover(); r != nil {
 			w.Count("replay-skipped")
@@ -162,38 +233,152 @@ func replay(w *gen.Writer, f []string) {
 	}
 }
 
-func main() {
-	log.SetOutput(io.Discard)
-	o := gen.ParseFlags()
-	w := gen.NewWriter(o.Out)
+// ---- worker: runs the cases with index in [from, to) in this process ------------------------------------
+
+func nStress(o gen.Opts) int {
+	if o.Tier == "thorough" {
+		return 12
+	}
+	return 2
+}
+
+// total number of work items: replay lines, or generated cases followed by the stress cases
+func total(o gen.Opts) int {
+	if o.Replay != "" {
+		return len(gen.ReplayInputs(o.Replay))
+	}
+	return o.N + nStress(o)
+}
+
+func worker(o gen.Opts, from, to int) {
+	w := newOut(o.Out)
 	defer w.Close()
 	startServer()
 	client.VerifYield = yieldHook
 	if o.Replay != "" {
-		for _, f := range gen.ReplayInputs(o.Replay) {
-			replay(w, f)
+		for i, f := range gen.ReplayInputs(o.Replay) {
+			if i >= from && i < to {
+				w.idx = i
+				replay(w, f)
+			}
 		}
 		return
 	}
 	root := gen.New(o.Seed)
-	nStress := 2
-	if o.Tier == "thorough" {
-		nStress = 12
-	}
-	for i := 0; i < o.N; i++ {
+	// the schedule and timeout cases run in real time (tens of milliseconds each): a tenth of the quick
+	// tier, a fiftieth of the thorough one (which is 20 times larger)
+	thorough := o.Tier == "thorough"
+	for i := from; i < to && i < o.N; i++ {
+		w.idx = i
 		r := root.Fork(uint64(i))
 		id := fmt.Sprintf("s%d.%d", o.Seed, i)
 		switch k := i % 20; {
-		case k < 9:
-			emitAsm(w, id, genAsm(r, i))
-		case k < 18:
-			emitJar(w, id, genJar(r))
-		default:
+		case k >= 18 && (!thorough || i%100 >= 98) && !schedAnomaly:
 			emitSched(w, id, genSched(r))
+		case k < 9 || (k >= 18 && (i%40 >= 20 || schedAnomaly)):
+			emitAsm(w, id, genAsm(r, i, thorough))
+		default:
+			// a few histories per run in which cookies expire between two operations (real time: ~0.35 s each)
+			emitJar(w, id, genJar(r, i%1000 == 13))
 		}
 	}
-	for i := 0; i < nStress; i++ {
-		r := root.Fork(uint64(1<<40 + i))
-		emitStress(w, fmt.Sprintf("s%d.stress%d", o.Seed, i), 4+r.Intn(5), 20+r.Intn(20), 2+r.Intn(3), 2+r.Intn(4))
+	distCounter{w}.add("pool-rounds", poolRounds)
+	distCounter{w}.add("pool-same-object", poolSame)
+	for j := 0; j < nStress(o); j++ {
+		if i := o.N + j; i >= from && i < to {
+			w.idx = i
+			r := root.Fork(uint64(1<<40 + j))
+			emitStress(w, fmt.Sprintf("s%d.stress%d", o.Seed, j), 4+r.Intn(5), 20+r.Intn(20), 2+r.Intn(3), 2+r.Intn(4))
+		}
 	}
+}
+
+// ---- parent: runs the work in child processes; a child that dies (the code under test corrupted memory,
+// panicked in a goroutine of its own, dead-locked the runtime …) costs one case, which is reported with the
+// observation `panic=…`, and the run goes on behind it ------------------------------------------------
+
+const chunk = 500
+
+func parent(o gen.Opts) {
+	w := gen.NewWriter(o.Out)
+	defer w.Close()
+	n := total(o)
+	tmp := o.Out + ".part"
+	for from := 0; from < n; {
+		to := from + chunk
+		if to > n {
+			to = n
+		}
+		args := []string{"-seed", strconv.FormatUint(o.Seed, 10), "-n", strconv.Itoa(o.N), "-tier", o.Tier, "-out", tmp}
+		if o.Replay != "" {
+			args = append(args, "-replay", o.Replay)
+		}
+		cmd := exec.Command(os.Args[0], args...)
+		cmd.Env = append(os.Environ(), fmt.Sprintf("C18_WORKER=%d:%d", from, to))
+		var stderr strings.Builder
+		cmd.Stderr = &stderr
+		err := cmd.Run()
+		if b, e := os.ReadFile(tmp); e == nil {
+			for _, l := range strings.Split(string(b), "\n") {
+				f := strings.Split(l, "\t")
+				switch {
+				case len(f) >= 3 && f[0] == "case":
+					w.Case(f[1], f[2:]...)
+				case len(f) == 2 && f[0] == "dist":
+					var d map[string]int
+					if json.Unmarshal([]byte(f[1]), &d) == nil {
+						for k, v := range d {
+							for ; v > 0; v-- {
+								w.Count(k)
+							}
+						}
+					}
+				}
+			}
+		}
+		if err == nil {
+			from = to
+			continue
+		}
+		// the child died: the case in flight is the failing one
+		next := to
+		if b, e := os.ReadFile(tmp + ".pending"); e == nil {
+			f := strings.Split(strings.TrimRight(string(b), "\n"), "\t")
+			if idx, e2 := strconv.Atoi(f[0]); e2 == nil && len(f) >= 3 && idx >= from && idx < to {
+				msg := "process died: " + lastLine(stderr.String())
+				w.Case(f[1], append(f[2:], "panic="+gen.Hex(msg))...)
+				w.Count("worker-died")
+				next = idx + 1
+			}
+		}
+		_ = os.Remove(tmp + ".pending")
+		from = next
+	}
+	_ = os.Remove(tmp)
+}
+
+func lastLine(s string) string {
+	for _, l := range strings.Split(s, "\n") {
+		if strings.HasPrefix(l, "panic:") || strings.HasPrefix(l, "fatal error:") {
+			if len(l) > 200 {
+				l = l[:200]
+			}
+			return l
+		}
+	}
+	return "no message"
+}
+
+func main() {
+	log.SetOutput(io.Discard)
+	o := gen.ParseFlags()
+	if r := os.Getenv("C18_WORKER"); r != "" {
+		var from, to int
+		if _, err := fmt.Sscanf(r, "%d:%d", &from, &to); err != nil {
+			os.Exit(2)
+		}
+		worker(o, from, to)
+		return
+	}
+	parent(o)
 }
